@@ -1,7 +1,7 @@
 """H rules: Cache.check()."""
 import ast
 
-from .framework import rule, Ob, fmt_trace, values_in
+from .framework import rule, Ob, fmt_trace, values_in, deep_values
 from .model import AnalysisError, walk_shallow, dotted
 from .values import V
 from . import sql as sqlmod
@@ -296,3 +296,80 @@ def h4(ctx):
     obs.append(Ob('H4', 'Cache.check/one-transaction', in_txn, 'the comparisons of check() do not run inside one '
                   'transaction: concurrent writers make it report phantom inconsistencies (and fix them)', f.loc()))
     return obs
+
+
+@rule('H5', floor=5, title='check(fix=True) repairs what it reports: every warning about a repairable inconsistency is followed by its repair')
+def h5(ctx):
+    f = ctx.method('Cache', 'check')
+    sites = {}
+    for p in ctx.paths(f, 'default'):
+        if p.kind == 'cut':
+            continue
+        tr = p.trace
+        warns = [e for e in tr if e.kind == 'EXT' and e.d['name'] == 'warnings.warn']
+        for i, w in enumerate(warns):
+            k = (w.line, w.node.col_offset, w.sites)
+            info = sites.setdefault(k, {'e': w, 'fix_tested': False, 'ok': True, 'wit': None, 'integrity': False})
+            # messages of PRAGMA integrity_check are reported as they come: nothing to repair
+            a = w.d['args'][0] if w.d['args'] else None
+            if a is not None and any(x.k in ('row', 'rows', 'col') and _from_pragma(x, tr) for x in deep_values(a, tr)):
+                info['integrity'] = True
+                continue
+            end = warns[i + 1].seq if i + 1 < len(warns) else len(tr)
+            seg = tr[w.seq + 1:end]
+            # stop at the end of the loop iteration the warning belongs to
+            cut = [j for j, x in enumerate(seg) if x.kind in ('FOREND', 'FOR')]
+            if cut:
+                seg = seg[:cut[0]]
+            ft = [x for x in seg if x.kind == 'TEST' and x.d['val'].k == 'param' and x.d['val'].a[0] == 'fix']
+            if not ft:
+                continue
+            info['fix_tested'] = True
+            if ft[0].d['truth']:
+                rep = [x for x in _repairs(seg, f) if x.seq > ft[0].seq]
+                if not rep:
+                    info['ok'] = False
+                    info['wit'] = info['wit'] or fmt_trace(tr)
+    obs = []
+    n = 0
+    for k in sorted(sites, key=lambda k: (k[0], k[1], str(k[2]))):
+        info = sites[k]
+        if info['integrity']:
+            continue
+        n += 1
+        e = info['e']
+        msg = e.d['args'][0] if e.d['args'] else None
+        label = _warn_label(msg, e)
+        key = 'Cache.check/%s' % label
+        cnt = sum(1 for o in obs if o.key.split('#')[0] == key)
+        if cnt:
+            key += '#%d' % (cnt + 1)
+        obs.append(Ob('H5', key, info['fix_tested'] and info['ok'],
+                      'the inconsistency reported here (%s) is not repaired when fix is true (%s): check(fix=True) '
+                      'reports it again on every run' % (label, 'no branch on `fix` follows the warning'
+                                                         if not info['fix_tested'] else 'the fix branch repairs nothing'),
+                      f.loc(e.node), info['wit']))
+    return obs
+
+
+def _from_pragma(x, tr):
+    seq = x.a[0] if x.k in ('row', 'rows', 'col') and isinstance(x.a[0], int) else None
+    if seq is None or seq >= len(tr):
+        return False
+    st = tr[seq].d.get('stmt') if tr[seq].kind == 'SQL' else None
+    return st is not None and st.kind in ('pragma', 'pragma_set')
+
+
+def _warn_label(msg, e):
+    txt = ''
+    if msg is not None:
+        for x in values_in(msg):
+            if x.is_const and isinstance(x.val, str):
+                txt = x.val
+                break
+            if x.k == 'str':
+                txt = x.a[0]
+                break
+    import re
+    words = re.findall(r'[A-Za-z_.]+', txt)
+    return '-'.join(words[:4]).lower() or 'warning@%d' % e.line
